@@ -58,6 +58,15 @@ func TestC20_Engine(t *testing.T) {
 		}
 		q, qc := gen.Query(t, cmds, []gen.QueryClass{"vocab", "vocab", "nlp", "nlp", "typo", "typo", "typo", "typo", "fragment", "fragment", "one", "mixed", "unicode", "long"})
 		warmUp(t, db, cmds)
+		if rapid.IntRange(0, 9).Draw(t, "terse-alias") == 0 {
+			// a notebook alias of one to three letters with no description, asked for by its name; the
+			// letters are ones whose case forms differ in UTF-8 length (k / U+212A, å / U+212B, ß / U+1E9E, ...)
+			alias := rapid.StringOfN(rapid.RuneFrom([]rune{'k', 'å', 'ß', 'ⱥ', 'ⱦ', 's', 'a', 'ω', 'i'}), 1, 3, -1).Draw(t, "alias")
+			cmds = append(cmds, database.Command{Command: alias})
+			db = gen.Load(t, cmds)
+			withEmb = false
+			q, qc = alias, "terse-alias"
+		}
 		if rapid.IntRange(0, 7).Draw(t, "hostile-k") == 0 {
 			q += " kill Kelvin ok"
 		}
